@@ -41,6 +41,7 @@ pub enum Ev {
     SignerTick { i: usize, faults: Vec<FaultSpec> },
     EpochUp { restake: bool },
     NewImmutable,
+    Blocks(u64),
     SignerStop(usize),
     SignerStart(usize),
     SignerRestart(usize),
@@ -59,6 +60,7 @@ impl Ev {
             Ev::EpochUp { restake: false } => "epoch+1",
             Ev::EpochUp { restake: true } => "epoch+1-with-new-stakes",
             Ev::NewImmutable => "new-immutable",
+            Ev::Blocks(_) => "new-blocks",
             Ev::SignerStop(_) => "signer-stop",
             Ev::SignerStart(_) => "signer-start",
             Ev::SignerRestart(_) => "signer-restart",
@@ -215,6 +217,8 @@ impl Run {
         let fixture = MithrilFixtureBuilder::default().with_signers(n).with_protocol_parameters(pp.clone()).build();
         agg.sim.init_genesis(&fixture).await?;
         agg.sim.update_digester().await?;
+        // the node already holds the last blocks before the start point
+        agg.sim.serve_blocks(91, 100, 10);
         let front = Front::spawn(agg.routes.clone()).await.with_context(|| "cannot bind the loopback listener of the front")?;
 
         // model seeds: what the aggregator holds for the genesis epochs = the fixture's keys
@@ -254,6 +258,9 @@ impl Run {
                     origin: "genesis-seed",
                 });
             }
+            node.block_scanner.add_forwards(vec![(91..=100u64)
+                .map(|bn| mithril_cardano_node_chain::entities::ScannedBlock::new(format!("block_hash-{bn}"), BlockNumber(bn), SlotNumber(bn - 90), vec![format!("tx_hash-{bn}-1")]))
+                .collect()]);
             node.start(&agg.sim.world).await?;
             signers.push(node);
             per.push(PerSigner::default());
@@ -401,6 +408,21 @@ impl Run {
             Ev::NewImmutable => {
                 let n = self.agg.sim.increase_immutable().await?;
                 entry["immutable"] = json!(n);
+            }
+            Ev::Blocks(n) => {
+                // the aggregator's node and every signer's node see the same new blocks
+                let (block, slot) = self.agg.sim.increase_blocks(*n).await?;
+                let blocks: Vec<mithril_cardano_node_chain::entities::ScannedBlock> = (1..=*n)
+                    .map(|k| {
+                        let bn = block - n + k;
+                        let sn = slot - n + k;
+                        mithril_cardano_node_chain::entities::ScannedBlock::new(format!("block_hash-{bn}"), BlockNumber(bn), SlotNumber(sn), vec![format!("tx_hash-{bn}-1")])
+                    })
+                    .collect();
+                for s in &self.signers {
+                    s.block_scanner.add_forwards(vec![blocks.clone()]);
+                }
+                entry["block"] = json!(block);
             }
             Ev::SignerStop(i) => {
                 self.signers[*i].stop();
@@ -633,6 +655,9 @@ impl Run {
         }
         if ev.delivered && ev.real_status == Some(201) {
             let vk_hex = signer.verification_key_for_concatenation.to_json_hex().unwrap_or_default();
+            if let Some(prev) = self.model.regs.iter().rev().find(|r| r.party == msg.party_id && r.sent_in_epoch == self.chain_epoch) {
+                mon.count(if prev.vk_hex == vk_hex { "registration:same_key_registered_again_in_the_epoch" } else { "registration:new_key_replaces_the_one_registered_earlier_in_the_epoch" });
+            }
             self.model.add(Registration {
                 party: msg.party_id.clone(),
                 sent_in_epoch: self.chain_epoch,
@@ -743,6 +768,8 @@ impl Run {
                 _ => "server-error",
             };
             mon.count(&format!("signature_reply:{class}"));
+            let tname = ev.body["entity_type"].as_object().and_then(|o| o.keys().next().cloned()).unwrap_or_else(|| "?".into());
+            mon.count(&format!("signature_reply_by_type:{tname}:{class}"));
             if disturbed && (status == 201 || status == 202) {
                 mon.nontrivial_str(&format!("{}|{i}|{key}", self.hid));
                 mon.count("signature_accepted_in_a_disturbed_signer_history");
@@ -781,7 +808,10 @@ impl Run {
             p.streak_epoch = epoch;
             p.streak = 0;
         }
-        let clean = !disturbed_tick && !self.agg_down && agg_epoch == Some(epoch);
+        // undisturbed = no fault on this tick, the aggregator reachable, working (its state machine is in
+        // ready / signing: it has entered the epoch and opened the registration round) and at the same epoch
+        let agg_state = self.agg.sim.state();
+        let clean = !disturbed_tick && !self.agg_down && agg_epoch == Some(epoch) && (agg_state == "ready" || agg_state == "signing");
         if clean {
             p.streak += 1;
         } else {
